@@ -6,9 +6,52 @@ import os, re, subprocess
 PROP = 'C16'
 PROPS_MODULES = ['LA.Props.C16']
 GEN = ['MatchFlags']
-ASSUMPTIONS = []
-TRUSTED = []
-MANIFEST = {'text': 'TODO', 'note': 'TODO', 'technique': 'TODO'}
+ASSUMPTIONS = [
+    'platform of the check: char is signed 8-bit, wchar_t signed 32-bit (the model\'s two comparison keys); the C locale of the '
+    'harness is C.UTF-8 (wide strings handed to archive_match are converted with wcrtomb = UTF-8)',
+    'malloc never fails (error_nomem paths of archive_match.c are not driven)',
+    'the archive_entry getters return what was stored, up to the normalisation they print themselves (negative ids -> 0, '
+    'nanoseconds folded into seconds): the model takes the entry\'s times and ids as the getters report them (C14\'s business)',
+    'patterns and pathnames are NUL-terminated strings without embedded NUL (the C string invariant; the no-out-of-bounds theorems do not need it)',
+]
+TRUSTED = [
+    'Lean model LA.Pm is a hand transcription of archive_pathmatch.c (pm_list, pm_slashskip, pm, __archive_pathmatch and the _w copies '
+    'as one model parameterised by the comparison key), LA.Match of the decision logic of archive_match.c; tied to the C only by the '
+    'differential engines pm / match',
+    'guard-page placement + SIGSEGV handler + ASan as the detector of a read outside the strings on the real code',
+    'flag bits and masks regenerated from archive.h / archive_pathmatch.h / archive_match.c by tools/lib/extract.py (Gen/MatchFlags.lean)',
+]
+MANIFEST = {
+    'text': 'PROVED in Lean over LA.Pm, a model of archive_pathmatch.c in which every *ptr is an index read that can fail: for every pattern, '
+            'pathname, flag set and start offsets the repaired matcher never reads beyond either terminator (pm_no_oob, matchAt_no_oob, '
+            'pathmatch_no_oob; NULL pointers included) and therefore always answers yes/no; it terminates by construction (well-founded '
+            'recursion, no fuel); the narrow and wide copies agree on all 7-bit strings (narrow_wide_agree) and provably differ beyond '
+            '(witness); the code before the fix: commit does read past the end (unrepaired_reads_past_end, a[!b] vs a). Declarative facts: '
+            '? (pm_question*), runs of * (pm_star, via the quirk that the rest must match before the terminator), literal patterns '
+            '(pm_literal), unanchored start = some path element start (unanchored_start), ^, $, end of pattern with and without '
+            'NO_ANCHOR_END (end_*), / runs, leading ./ of either side, and pm_spec_fragment: on patterns made of ordinary characters, ? and * '
+            'against slash-free pathnames the matcher equals an independent inductive glob relation. PROVED over LA.Match (model of '
+            'archive_match.c decision logic): exclusion_wins, inclusion_decides, directory_pattern_covers_children, '
+            'unmatched_count_invariant and marks_after_query over every history of API calls, time_excluded_lex / file_rejects_lex '
+            '(lexicographic (sec,nsec) order with the EQUAL bit, ctime falling back to mtime), owner_excluded_spec (binary search over '
+            'the sorted id array = membership, for every history), excluded_is_disjunction. '
+            'DIFFERENTIALLY CHECKED ONLY (no theorem): that the models are the C - engine pm runs __archive_pathmatch/_w, pm/pm_w, pm_list/_w, '
+            'pm_slashskip/_w with both strings ending at a PROT_NONE page and again on exact-size heap copies under ASan/UBSan, engine match '
+            'runs the real archive_match_* API (narrow and _w setters, path/time/owner/all verdicts, unmatched_inclusions and its _next '
+            'iterator, exclude_entry records) against the models on random structured cases over the alphabet * ? [ ] ! ^ - \\ / . $ a b '
+            '(to length 12+), the 159 assertions of the upstream unit test, and in the thorough tier an exhaustive enumeration of all '
+            'patterns <= 5 over 9 symbols x all pathnames <= 3 x 4 flag sets x both variants and all patterns <= 4 over the 13-symbol '
+            'alphabet x all pathnames <= 3 (1.0e9 evaluations, digests compared). A full declarative specification of classes, / '
+            'normalisation and the * re-entry through __archive_pathmatch is not proved (only the lemmas listed).',
+    'note': 'Two defects repaired in the repo worktree: (1) fix: pm()/pm_w() let a [...] class match the terminating NUL and read past the '
+            'pathname (found in round 0, reproduced through the pm engine, witness in corpus/C16/pm.class-at-nul.ops); (2) fix: '
+            'archive_match_free leaked the error string after any failed call (found by LSan through the match engine). Not modelled: '
+            '*_pattern_from_file, include_date (date parser), include_file_time (stat), Windows paths, allocation failure; pm_list with '
+            'c = NUL is reached only through match/pm ops. Wide strings beyond the BMP / invalid code points and undecodable narrow '
+            'bytes read back through the _w iterator are left to the locale layer (C18).',
+    'technique': 'Lean 4 proof (mutual well-founded recursion + functional induction over a memory-faithful index model, invariants over '
+                 'call histories) + model/C differential correspondence with guard pages, ASan and exhaustive small-scope enumeration',
+}
 
 # the quantifier's alphabet: * ? [ ] ! ^ - \ / . $ and letters
 ALPHA = [ord(c) for c in '*?[]!^-\\/.$ab']
